@@ -29,6 +29,28 @@ class _SplitParallel(ast.NodeTransformer):
     """`a, b = x, y` -> `a = x; b = y` when no target is read on the right-hand side (same behaviour: every right-hand expression
     is evaluated from values the assignment does not change).  Done once at load time so that no rule has to know the form."""
 
+    UFUNC_AUG = {'add': ast.Add, 'subtract': ast.Sub, 'multiply': ast.Mult, 'divide': ast.Div, 'true_divide': ast.Div, 'bitwise_xor': ast.BitXor, 'bitwise_or': ast.BitOr,
+                 'bitwise_and': ast.BitAnd}
+
+    def visit_Expr(self, n):
+        # `np.add(x, e, out=x)` as a statement is `x += e` (same ufunc, same in-place store): one form for every rule
+        self.generic_visit(n)
+        c = n.value
+        if isinstance(c, ast.Call) and isinstance(c.func, ast.Attribute) and isinstance(c.func.value, ast.Name) and c.func.value.id in ('_np', 'np', 'numpy') \
+                and c.func.attr in self.UFUNC_AUG and len(c.args) == 2 and len(c.keywords) == 1 and c.keywords[0].arg == 'out' \
+                and isinstance(c.args[0], (ast.Name, ast.Attribute, ast.Subscript)) and ast.unparse(c.keywords[0].value) == ast.unparse(c.args[0]):
+            import copy as _copy
+            tgt = _copy.deepcopy(c.args[0])
+            for x in ast.walk(tgt):
+                if hasattr(x, 'ctx'):
+                    x.ctx = ast.Load()
+            tgt.ctx = ast.Store()
+            a = ast.AugAssign(target=tgt, op=self.UFUNC_AUG[c.func.attr](), value=c.args[1])
+            ast.copy_location(a, n)
+            ast.fix_missing_locations(a)
+            return a
+        return n
+
     def visit_Assign(self, n):
         self.generic_visit(n)
         if len(n.targets) == 2 and {type(t) for t in n.targets} == {ast.Name, ast.Attribute}:
